@@ -3,8 +3,9 @@
 cd /verif
 git -C /repo diff --quiet || { echo "/repo has uncommitted changes"; exit 1; }
 for p in $(python3 -c "import json; print(' '.join(c['property_id'] for c in json.load(open('MANIFEST.json'))['checks']))"); do
-  PYVC_WRITE_BASELINE=1 ./check $p --tier quick 2>&1 | tail -1
+  PYVC_WRITE_BASELINE=1 PYVC_WRITE_LOCALS=1 ./check $p --tier quick 2>&1 | tail -1
 done
+rm -f invariant_locals.json.lock
 python3-vt - <<'PY'
 import json, jsonschema, glob
 man = json.load(open('/verif/MANIFEST.json'))
